@@ -34,6 +34,10 @@ const maxMarkerIDByteCount = 4 * maxMarkerIDRuneCount // max 4 bytes per rune
 type negint uint64
 type rid string
 
+// Key type for times, so that a time key never equals a string key that has
+// the same text as the time's string representation.
+type timekey string
+
 type EventRule interface {
 	OnBeginDocument(ctx *Context)
 	OnEndDocument(ctx *Context)
